@@ -18,6 +18,7 @@ P = "result.children[0]"
 SORTED = "_x_sorted_hash_entries"
 contract(
     "ascmhl.hashlist_xml_parser._media_hash_xml_element",
+    slices=4,
     params={"media_hash": "MHLMediaHash"},
     returns="Element",
     exposes={"sorted_hash_entries": "list[MHLHashEntry]"},
@@ -136,6 +137,7 @@ contract(
 OLD = "chain.generations"
 contract(
     "ascmhl.chain_xml_parser._write_chain_to_file",
+    slices=4,
     params={"chain": "MHLChain", "new_hash_list": "MHLHashList", "file": "File"},
     requires=["new_hash_list.file_path is not None", "len(file.written) == 0", f"all(g.hash_format == 'c4' for g in {OLD})"],
     modifies=["file.written", "file.raw"],
